@@ -597,3 +597,139 @@ func (e *Engine) noteSharedAccess(st *State, p PtrV, atomic, write bool) {
 	}
 	e.Violations = append(e.Violations, v)
 }
+
+
+// extModelCall is a contract model of google.golang.org/protobuf/proto.{Has,Get,Set,Clear}Extension for generated
+// messages: the populated extensions of a message live in its own `extensionFields` field (as in the real runtime,
+// so Reset / struct assignment clears them), keyed by field number; the value stored is the Go value passed to
+// SetExtension. The descriptor is a *protoimpl.ExtensionInfo whose Field and ExtensionType fields are read.
+// GetExtension of an unpopulated extension returns the type's default (zero value, nil []byte, typed nil message) -
+// declared [default=...] values are not modelled. SetExtension with a value of another Go type panics (violation),
+// with a nil message pointer clears. Anything else (dynamic messages, other descriptor types) is left to the stubs.
+func (e *Engine) extModelCall(st *State, x *ssa.Call, name string, args []Value) (Value, bool) {
+	short := name[strings.LastIndex(name, ".")+1:]
+	switch short {
+	case "HasExtension", "GetExtension", "SetExtension", "ClearExtension":
+	default:
+		return nil, false
+	}
+	mi, ok1 := args[0].(IfaceV)
+	xi, ok2 := args[1].(IfaceV)
+	if !ok1 || !ok2 || mi.T == nil || xi.T == nil {
+		return nil, false
+	}
+	mp, ok1 := mi.V.(PtrV)
+	xp, ok2 := xi.V.(PtrV)
+	if !ok1 || !ok2 || mp.Obj == 0 || xp.Obj == 0 {
+		return nil, false
+	}
+	mpt, ok := mi.T.Underlying().(*types.Pointer)
+	if !ok {
+		return nil, false
+	}
+	ms, ok := mpt.Elem().Underlying().(*types.Struct)
+	if !ok {
+		return nil, false
+	}
+	fieldIdx := func(s *types.Struct, n string) int {
+		for i := 0; i < s.NumFields(); i++ {
+			if s.Field(i).Name() == n {
+				return i
+			}
+		}
+		return -1
+	}
+	efi := fieldIdx(ms, "extensionFields")
+	xpt, ok := xi.T.Underlying().(*types.Pointer)
+	if efi < 0 || !ok {
+		return nil, false
+	}
+	xs, ok := xpt.Elem().Underlying().(*types.Struct)
+	if !ok {
+		return nil, false
+	}
+	nfi, tfi := fieldIdx(xs, "Field"), fieldIdx(xs, "ExtensionType")
+	if nfi < 0 || tfi < 0 {
+		return nil, false
+	}
+	sub := func(p PtrV, i int) PtrV {
+		return PtrV{Obj: p.Obj, Path: append(append([]PElem(nil), p.Path...), PElem{Field: i})}
+	}
+	num, _ := e.load(st, sub(xp, nfi), xs.Field(nfi).Type()).(*Term)
+	ety, _ := e.load(st, sub(xp, tfi), xs.Field(tfi).Type()).(IfaceV)
+	if num == nil || !num.IsConst() || ety.T == nil {
+		panic("extension model: descriptor without a concrete Field / ExtensionType")
+	}
+	// Go type of the values of this extension and its default
+	var vt types.Type
+	var def Value
+	switch u := ety.T.Underlying().(type) {
+	case *types.Pointer:
+		if _, isStruct := u.Elem().Underlying().(*types.Struct); isStruct {
+			vt, def = ety.T, PtrV{}
+		} else {
+			vt, def = u.Elem(), zero(u.Elem())
+		}
+	case *types.Slice:
+		vt, def = ety.T, zero(ety.T)
+	default:
+		panic(fmt.Sprintf("extension model: unsupported ExtensionType %v", ety.T))
+	}
+	if e.stubsUsed != nil {
+		e.stubsUsed["model:google.golang.org/protobuf/proto extension store (Has/Get/Set/ClearExtension on generated messages)"] = true
+	}
+	fp := sub(mp, efi)
+	mv, _ := e.load(st, fp, ms.Field(efi).Type()).(MapV)
+	find := func() (int, bool) {
+		if mv.Obj == 0 {
+			return 0, false
+		}
+		for i, en := range e.obj(st, mv.Obj).Ents {
+			if k, ok := en.K.(*Term); ok && k.IsConst() && k.C == num.C {
+				return i, true
+			}
+		}
+		return 0, false
+	}
+	remove := func() {
+		if i, ok := find(); ok {
+			o := e.mutObj(st, mv.Obj)
+			o.Ents = append(append([]MapEntry(nil), o.Ents[:i]...), o.Ents[i+1:]...)
+		}
+	}
+	switch short {
+	case "HasExtension":
+		_, has := find()
+		return BoolC(has), true
+	case "GetExtension":
+		if i, ok := find(); ok {
+			return e.obj(st, mv.Obj).Ents[i].V, true
+		}
+		return IfaceV{T: vt, V: def}, true
+	case "ClearExtension":
+		remove()
+		return nil, true
+	default: // SetExtension
+		v, _ := args[2].(IfaceV)
+		e.require(st, BoolC(v.T != nil && types.Identical(v.T, vt)), "panic", "proto.SetExtension is given a value whose Go type is not the extension's (the runtime panics)", x)
+		if v.T == nil || !types.Identical(v.T, vt) {
+			return nil, true
+		}
+		if pv, isPtr := v.V.(PtrV); isPtr && pv.Obj == 0 {
+			remove()
+			return nil, true
+		}
+		if mv.Obj == 0 {
+			id := e.newObj(st, &Obj{Kind: OMap, Name: "extensionFields"})
+			mv = MapV{Obj: id}
+			e.store(st, fp, mv)
+		}
+		if i, ok := find(); ok {
+			e.mutObj(st, mv.Obj).Ents[i].V = v
+		} else {
+			o := e.mutObj(st, mv.Obj)
+			o.Ents = append(append([]MapEntry(nil), o.Ents...), MapEntry{K: Const(32, num.C), V: v})
+		}
+		return nil, true
+	}
+}
